@@ -53,7 +53,7 @@ REACH = ["parsimony:parsimony_score", "parsimony:fitch_down_pass", "charmatrixmo
          "parsimony:fitch_up_pass", "parsimony:_retrieve_state_sets_from_attr", "parsimony:_NodeStateSetMap.__getitem__",
          "charstatemodel:StateIdentity._get_fundamental_states", "charstatemodel:StateIdentity._get_fundamental_indexes_with_gaps_as_missing",
          "charstatemodel:StateAlphabet.new_multistate", "nexusreader:NexusReader._get_state_for_multistate_tokens"]
-MIN_EVENTS = {
+MIN_EVENTS = {"tree-with-taxa-on-internal-nodes-that-have-matrix-rows": (600, 1000), 
     # (quick, thorough): about 40-45 % of what clean runs observe
     "score-compared-with-oracle": (11000, 22000), "repeat-call-compared": (8000, 17000), "bruteforce-crosscheck": (12000, 25000),
     "rerooted-compared": (1300, 2800), "per-character-list-compared": (11000, 22000), "per-character-list-compared-on-used-object": (6000, 13000),
@@ -255,6 +255,13 @@ class History(object):
         self.extra = []
         if rng.random() < 0.3:
             self.extra = ["X%d" % i for i in range(rng.choice([1, 2, 3]))]
+        if self.extra and rng.random() < 0.6:
+            # taxa on INTERNAL nodes that have rows in the matrix (labelled ancestors kept in the alignment): the score is
+            # the minimum over all assignments of states to internal nodes - their rows are not data (seeded change C16e)
+            inner = [nd for nd in ref.preorder(spec) if nd[3]]
+            for lab, nd in zip(self.extra, rng.sample(inner, min(len(inner), len(self.extra)))):
+                nd[0] = lab
+            ctx.ev("tree-with-taxa-on-internal-nodes-that-have-matrix-rows")
         nslabels = self._interleave(self.row_labels, self.extra)
         ns = dendropy.TaxonNamespace(nslabels)
         self.obj = Obj(bridge.build_tree(spec, ns, rooted), spec, rooted, ns)
